@@ -12,11 +12,14 @@
  *
  * ops: set D | del D | get D | type D | count D | keys D | getsub D | setsub D |
  *      subset D D2 | subdel D D2 | copyout D | copyin D | quote K | reset |
+ *      copywithin D D2 (aliased copy, fix D71: p = set_subtree(&root, D); s = get_subtree(root, D2);
+ *               if (p) vnaproperty_copy(p, s) - source inside / around / equal to / beside the destination) |
  *      yamlrt   (export root to memory, import_yaml_from_string into a fresh root)
  *      yamlrtf  (the same with import_yaml_from_file on an fmemopen stream)
  *      yamltree (export root, parse the text with libyaml alone and dump the node tree)
  *      yamlinto / yamlintof (export root, import the text into aux, which may hold a tree already)
- *      yamlimp T (import the YAML text T into root, which may hold a tree already)
+ *      yamlimp T / yamlimpf T (import the YAML text T with _from_string / _from_file into root, which may hold a
+ *               tree already; payload Y:<the document libyaml alone parses from T> | Y:!syntax | Y:!empty)
  *      calrt    (vnacal mode: vnacal_save to memory / vnacal_load, digest of the loaded roots)
  *      hdump    (white-box: payload H:<hash size>,<count>|<bucket>:<hexkey>,<hexkey>;... of the root map,
  *                compared with coq/PropTree/HashModel.v run on CRC-32C by checks/C13.py)
@@ -343,6 +346,21 @@ int main(int argc, char **argv)
 		else ret = vnaproperty_copy(p, aux);
 		e = errno;
 	    }
+	} else if (strcmp(w[0], "copywithin") == 0) {
+	    /* same C sequence as pacopysub of mem_harness.c: the destination path is conformed first, then the
+	     * source is looked up in the same tree, then copied into the anchor */
+	    vnaproperty_t **p, *s;
+	    errno = 0;
+	    p = mode ? vnacal_property_set_subtree(vcp, ci, "%s", a) : vnaproperty_set_subtree(&root, "%s", a);
+	    e = errno;
+	    s = mode ? vnacal_property_get_subtree(vcp, ci, "%s", b) : vnaproperty_get_subtree(root, "%s", b);
+	    if (p == NULL) {
+		ret = -2;
+	    } else {
+		errno = 0;
+		ret = vnaproperty_copy(p, s);
+		e = errno;
+	    }
 	} else if (strcmp(w[0], "copyout") == 0) {
 	    vnaproperty_t *s;
 	    s = mode ? vnacal_property_get_subtree(vcp, ci, "%s", a) : vnaproperty_get_subtree(root, "%s", a);
@@ -423,10 +441,38 @@ int main(int argc, char **argv)
 		}
 		e = ret == 0 ? 0 : errno;
 	    }
-	} else if (strcmp(w[0], "yamlimp") == 0 && !mode) {
+	} else if ((strcmp(w[0], "yamlimp") == 0 || strcmp(w[0], "yamlimpf") == 0) && !mode) {
+	    /* import the text into root over whatever root holds; payload = what libyaml ALONE makes of the text
+	     * (Y:<tree>, Y:!syntax, Y:!empty): the document the model's import_public is run on */
+	    const char *text = a ? a : "";
+	    yaml_parser_t parser;
+	    yaml_document_t doc;
+	    yaml_node_t *yr;
+	    yaml_parser_initialize(&parser);
+	    yaml_parser_set_input_string(&parser, (const unsigned char *)text, strlen(text));
+	    if (!yaml_parser_load(&parser, &doc)) {
+		fputs("Y:!syntax", po);
+	    } else {
+		if ((yr = yaml_document_get_root_node(&doc)) == NULL) {
+		    fputs("Y:!empty", po);
+		} else {
+		    fputs("Y:", po); ydump(po, &doc, yr);
+		}
+		yaml_document_delete(&doc);
+	    }
+	    yaml_parser_delete(&parser);
 	    errno = 0;
-	    ret = vnaproperty_import_yaml_from_string(&root, a, errfn, NULL);
-	    e = ret == 0 ? 0 : errno;
+	    if (w[0][7] == 'f') {
+		FILE *yi = tmpfile();
+		if (yi == NULL) { perror("tmpfile"); exit(3); }
+		fwrite(text, 1, strlen(text), yi);
+		rewind(yi);
+		ret = vnaproperty_import_yaml_from_file(&root, yi, "mem", errfn, NULL);
+		fclose(yi);
+	    } else {
+		ret = vnaproperty_import_yaml_from_string(&root, text, errfn, NULL);
+	    }
+	    e = 0;		/* errno after a failed import is not part of the comparison */
 	} else if (strcmp(w[0], "calrt") == 0 && mode) {
 	    /* save the whole vnacal_t to memory, load it, digest of global and calibration roots */
 	    char *ctext = NULL; size_t clen = 0;
